@@ -281,6 +281,11 @@ func vfC13Junk(kind string, ch vfC13Hello, seq uint64) []byte {
 		return vfLegacyRecord(22, ch.RecVer, 0, seq, nil, -1, vfHSFragment(20, 12, 0, 0, 12, body))
 	case "empty-fragment-seq0":
 		return vfLegacyRecord(22, ch.RecVer, 0, seq, nil, -1, vfHSFragment(1, uint32(len(ch.Body)), 0, 0, 0, nil))
+	case "empty-ack":
+		// a plaintext ACK record that acknowledges nothing
+		return vfLegacyRecord(26, ch.RecVer, 0, seq, nil, -1, []byte{0, 0})
+	case "ack-of-record-0":
+		return vfLegacyRecord(26, ch.RecVer, 0, seq, nil, -1, append([]byte{0, 16}, make([]byte, 16)...))
 	case "alert-warning":
 		return vfLegacyRecord(21, ch.RecVer, 0, seq, nil, -1, []byte{1, 90})
 	case "hello-fragment":
@@ -627,7 +632,7 @@ func vfC13Cases() []vfC13Case {
 			// ... and the script dimensions on the unmodified hello shape
 			cases = append(cases, vfC13Case{Cfg: cfg, Pre: 3, SilenceA: true, Mutant: m.Name, Reps: 2})
 		}
-		for _, j := range []string{"garbage", "finished", "client-key-exchange", "alert-warning", "hello-fragment", "finished-seq0", "empty-fragment-seq0"} {
+		for _, j := range []string{"garbage", "finished", "client-key-exchange", "alert-warning", "hello-fragment", "finished-seq0", "empty-fragment-seq0", "empty-ack", "ack-of-record-0"} {
 			cases = append(cases, vfC13Case{Cfg: cfg, Pre: 2, Junk: j, Mutant: "cookie-flip-last", Reps: 1})
 			cases = append(cases, vfC13Case{Cfg: cfg, Pre: 1, Junk: j, SilenceA: true, Mutant: "valid", Reps: 1})
 		}
@@ -669,7 +674,7 @@ func TestVF_C13(t *testing.T) {
 		// PRNG scripts on top of the exhaustive table
 		muts := vfC13Mutants()
 		cfgs := vfC13Cfgs()
-		junk := []string{"", "", "garbage", "finished", "client-key-exchange", "alert-warning", "hello-fragment", "finished-seq0", "empty-fragment-seq0"}
+		junk := []string{"", "", "garbage", "finished", "client-key-exchange", "alert-warning", "hello-fragment", "finished-seq0", "empty-fragment-seq0", "empty-ack", "ack-of-record-0"}
 		for i := 0; i < 30000; i++ {
 			r := vfRand("C13", i)
 			cases = append(cases, vfC13Case{
